@@ -23,6 +23,10 @@ def run_property(pid, tier, root, seed, selftest=True, out_dir=None, evidence_di
     try:
         ctx = Ctx(root)
         chk = Check(ctx, pid, tier)
+        records = None
+        if tier == "thorough":
+            from .cfg import CFG
+            records = CFG.RECORD = []
         try:
             mod.run(chk)
         except AnalysisError as e:
@@ -39,6 +43,9 @@ def run_property(pid, tier, root, seed, selftest=True, out_dir=None, evidence_di
             integration.run(chk)
             extra["exhaustive"] = True
             from . import thorough
+            from .cfg import CFG
+            CFG.RECORD = None
+            extra.update(thorough.cross_check_queries(records or []))
             extra.update(thorough.run(chk, mod, seed, selftest=selftest))
         return finish(chk, t0, seed, mod.EXPLANATION, mod.RULE, extra, out_dir, evidence_dir)
     except AnalysisError as e:
